@@ -477,6 +477,22 @@ func (n *Node) CheckChainInvariants(genesis []byte, known []*types.Block) error 
 			}
 		}
 	}
+	// the receipts of a block that is stored but not on the main chain are "not found", whatever its height
+	mainHash := map[string]bool{}
+	for _, b := range main {
+		mainHash[string(b.BlockHash())] = true
+	}
+	for _, b := range known {
+		if mainHash[string(b.BlockHash())] {
+			continue
+		}
+		if _, err := cs.GetBlock(b.BlockHash()); err != nil {
+			continue // not stored
+		}
+		if rs, err := cs.VerifGetReceipts(b.BlockHash()); err == nil && rs != nil && len(rs.Get()) > 0 {
+			return fmt.Errorf("receipts are reported for block %d/%x, which is not on the main chain", b.BlockNo(), short(b.BlockHash()))
+		}
+	}
 	// transactions that are only on abandoned branches are not reported as confirmed
 	for _, b := range known {
 		for _, tx := range b.GetBody().GetTxs() {
